@@ -212,9 +212,9 @@ theorem fns_atomic (sub : Bool) (p : Patch) (F : Obj) (env : Env) (st : St)
 example :
     let F : Obj := ⟨1, 5, false, [], []⟩
     finsChanged F (applyFns [.block "f"] F) = true ∧
-    (slipped Env.quiet .jsonBody ⟨5, 1, some F⟩).obj = some F ∧
-    (slipped { slips := fun _ => some (.edit [("spec", num 1)]), faults := fun _ => .none } .jsonBody ⟨5, 1, some F⟩).obj
-      = some ⟨1, 6, false, [], [("spec", num 1)]⟩ := by decide
+    ((slipped Env.quiet .jsonBody ⟨5, 1, some F⟩).obj.map (·.rv)) = some 5 ∧
+    ((slipped { slips := fun _ => some (.edit [("spec", num 1)]), faults := fun _ => .none } .jsonBody ⟨5, 1, some F⟩).obj.map (·.rv))
+      = some 6 := by decide
 
 /-- A refused JSON-patch (422, also an injected one) is the last request of the call and returns
     ALL the fns as the remaining patch — also those of an already accepted body JSON-patch. -/
@@ -235,12 +235,9 @@ theorem remaining_only_after_refusal (sub : Bool) (p : Patch) (orig : Obj) (env 
     (f : List Fn) (b : Option Obj) (h : (patchObj sub p orig env s).outcome = .ok (some f) b) :
     f = p.fns ∧ ∃ r, (patchObj sub p orig env s).reqs.getLast? = some r ∧ r.kind.isJson = true ∧ r.code ≠ 200 ∧ r.code ≠ 404 := by
   unfold patchObj at h ⊢
-  have hg := good_patch sub p orig env s
-  cases hg with
-  | ok st _ => rename_i e; rw [← e] at h; simp [finish] at h
-  | stop st pre r h1 _ h3 =>
-    rename_i e
-    rw [← e] at h ⊢
+  rcases good_inv (good_patch sub p orig env s) with ⟨st, e, _⟩ | ⟨st, pre, r, e, h1, _, h3⟩
+  · rw [e] at h; simp [finish] at h
+  · rw [e] at h ⊢
     have hreq : (finish p (.error (st, stopOf r))).reqs = st.reqs := (finish_reqs p _).1
     rw [hreq, h1]
     unfold stopOf at h
@@ -255,7 +252,8 @@ theorem remaining_only_after_refusal (sub : Bool) (p : Patch) (orig : Obj) (env 
 
 theorem block_idem (f : String) (l : List String) : blockDeletion f (blockDeletion f l) = blockDeletion f l := by
   have h : f ∈ blockDeletion f l := (mem_block f f l).2 (Or.inl rfl)
-  conv => lhs; unfold blockDeletion
+  generalize blockDeletion f l = l' at h ⊢
+  unfold blockDeletion
   rw [if_pos h]
 
 theorem allow_idem (f : String) (l : List String) : allowDeletion f (allowDeletion f l) = allowDeletion f l := by
@@ -290,20 +288,22 @@ theorem carry_forward (sub : Bool) (fns : List Fn) (o : Obj) (s : Server) (ho : 
         o'.fins = (applyFns fns o).fins) ∨
      ((cycle sub (some fns) [] [] o Env.quiet s).1.server.obj = none ∧ o.marked = true ∧
         (applyFns fns o).fins = [])) := by
-  unfold cycle nextPatch
-  simp only [Option.getD_some, List.append_nil]
-  cases hfe : fns with
+  cases fns with
   | nil =>
-    simp only [Patch.isEmpty, List.isEmpty_nil, Bool.and_self, if_true]
+    have e : cycle sub (some []) [] [] o Env.quiet s = (⟨[], s, .ok none none⟩, none) := by
+      simp [cycle, nextPatch, Patch.isEmpty]
+    rw [e]
     exact ⟨rfl, Or.inl ⟨o, ho, rfl, rfl⟩⟩
   | cons f fs =>
-    have hne : (Patch.isEmpty ⟨[], f :: fs⟩) = false := by simp [Patch.isEmpty]
-    simp only [hne, Bool.false_eq_true, if_false]
+    have e : cycle sub (some (f :: fs)) [] [] o Env.quiet s =
+        (patchObj sub ⟨[], f :: fs⟩ o Env.quiet s,
+         memoryAfter (some (f :: fs)) (patchObj sub ⟨[], f :: fs⟩ o Env.quiet s).outcome) := by
+      simp [cycle, nextPatch, Patch.isEmpty]
+    rw [e]
     obtain ⟨hh, hout⟩ := quiet_fns_cycle sub (f :: fs) o s ho
-    simp only at hh hout
     unfold patchObj
     constructor
-    · rcases hout with ⟨st, e⟩ | ⟨st, e⟩ <;> rw [e] <;> rfl
+    · rcases hout with ⟨st, e'⟩ | ⟨st, e'⟩ <;> rw [e'] <;> rfl
     · rw [(finish_reqs _ _).2]
       rcases hh with ⟨x, hx, hu, _, hfx⟩ | ⟨hn, hm, hl⟩
       · exact Or.inl ⟨x, hx, hu, hfx⟩
@@ -325,9 +325,7 @@ theorem carry_forward_not_repeated (sub : Bool) (orig : Obj) (env : Env) (s : Se
 theorem reapply_membership (fns : List Fn) (o : Obj) (x : String) :
     x ∈ (applyFns fns (applyFns fns o)).fins ↔ x ∈ (applyFns fns o).fins := by
   rw [mem_applyFns x fns (applyFns fns o), mem_applyFns x fns o]
-  cases lastOp x fns with
-  | some b => rfl
-  | none => simp only; rw [mem_applyFns x fns o]; cases h : lastOp x fns <;> simp_all
+  cases lastOp x fns <;> simp
 
 /-- …but the ORDER may change when one list mixes a remove-and-re-add with another addition
     (order-level idempotence holds for each single function, `block_idem`/`allow_idem`, which is
@@ -359,12 +357,9 @@ theorem raised_only_on_merge_422 (sub : Bool) (p : Patch) (orig : Obj) (env : En
     (h : (patchObj sub p orig env s).outcome = .raised) :
     ∃ r, (patchObj sub p orig env s).reqs.getLast? = some r ∧ r.kind.isJson = false ∧ r.code ≠ 200 ∧ r.code ≠ 404 := by
   unfold patchObj at h ⊢
-  have hg := good_patch sub p orig env s
-  cases hg with
-  | ok st _ => rename_i e; rw [← e] at h; simp [finish] at h
-  | stop st pre r h1 _ h3 =>
-    rename_i e
-    rw [← e] at h ⊢
+  rcases good_inv (good_patch sub p orig env s) with ⟨st, e, _⟩ | ⟨st, pre, r, e, h1, _, h3⟩
+  · rw [e] at h; simp [finish] at h
+  · rw [e] at h ⊢
     have hreq : (finish p (.error (st, stopOf r))).reqs = st.reqs := (finish_reqs p _).1
     rw [hreq, h1]
     unfold stopOf at h
